@@ -182,7 +182,7 @@ Proof. vm_compute. repeat split; reflexivity. Qed.
 (* ------------------------------------------------------------------------------------------------------
    Added in build session 4 (statements re-stated from the proof files by harness tooling; each is closed by
    exact). *)
-From SplipyModel Require Import Proofs.CompositeShapes.
+From SplipyModel Require Import Proofs.CompositeShapes Gen.DiscSquare Proofs.DiscSquareTie.
 Open Scope R_scope.
 Theorem C13_sphere_from_revolve_net :
   forall (prof seg : list (list R)) (M N : list R),
@@ -384,11 +384,12 @@ Theorem C13_radial_interpolation :
 Proof. exact @radial_interpolation. Qed.
 Print Assumptions C13_radial_interpolation.
 
+(* about the net REGENERATED from surface_factory.disc (Gen/DiscSquare.v) *)
 Theorem C13_disc_square_boundary :
   forall r w b0 b1 b2 : R,
          w * w = 1 / 2 ->
          b1 * b1 = 4 * (b0 * b2) ->
-         let net := disc_square_net r w in
+         let net := @disc_square_net_gen R NumR r w in
          forall i0 i1 i2 : nat,
          In (i0, i1, i2) [(0%nat, 1%nat, 2%nat); (6%nat, 7%nat, 8%nat); (0%nat, 3%nat, 6%nat); (2%nat, 5%nat, 8%nat)] ->
          let P0 := nth i0 net [] in
@@ -397,9 +398,10 @@ Theorem C13_disc_square_boundary :
          blend3 hx P0 P1 P2 b0 b1 b2 * blend3 hx P0 P1 P2 b0 b1 b2 +
          blend3 hy P0 P1 P2 b0 b1 b2 * blend3 hy P0 P1 P2 b0 b1 b2 =
          r * r * (blend3 hw P0 P1 P2 b0 b1 b2 * blend3 hw P0 P1 P2 b0 b1 b2) /\ hw P0 = 1 /\ hw P1 = w /\ hw P2 = 1.
-Proof. exact @disc_square_boundary. Qed.
+Proof. exact disc_square_gen_boundary. Qed.
 Print Assumptions C13_disc_square_boundary.
 
+(* about the net REGENERATED from surface_factory.disc (Gen/DiscSquare.v) *)
 Theorem C13_disc_square_inside :
   forall r w a0 a1 a2 b0 b1 b2 : R,
          w * w = 1 / 2 ->
@@ -414,12 +416,12 @@ Theorem C13_disc_square_inside :
          b1 * b1 = 4 * (b0 * b2) ->
          a0 + a1 + a2 = 1 ->
          b0 + b1 + b2 = 1 ->
-         let net := disc_square_net r w in
+         let net := @disc_square_net_gen R NumR r w in
          let X := blend33 hx net a0 a1 a2 b0 b1 b2 in
          let Y := blend33 hy net a0 a1 a2 b0 b1 b2 in
          let W := blend33 hw net a0 a1 a2 b0 b1 b2 in
          0 < W /\ X * X + Y * Y <= r * r * (W * W) /\ X / W * (X / W) + Y / W * (Y / W) <= r * r.
-Proof. exact @disc_square_inside. Qed.
+Proof. exact disc_square_gen_inside. Qed.
 Print Assumptions C13_disc_square_inside.
 
 Theorem C13_placement_frame :
